@@ -11,6 +11,7 @@ for f in $(git diff --name-only --diff-filter=U); do
   case "$f" in
     MANIFEST.json) git checkout --ours -- "$f"; git add "$f" ;;
     evidence/*) git checkout --ours -- "$f"; git add "$f" ;;
+    seeded/*/meta.json) git checkout --theirs -- "$f"; git add "$f" ;;
     known_findings.jsonl)
       git show :2:known_findings.jsonl > /tmp/kf_ours; git show :3:known_findings.jsonl > /tmp/kf_theirs
       python3 - <<'PY'
